@@ -871,7 +871,25 @@ def table_subscripts(P, R, rule='C14.BND.6'):
         def from_text(ix):
             while isinstance(ix, dict) and ix.get('k') == 'cast':
                 ix = ix.get('e')
-            return is_var(ix) and ix.get('sc') in ('local', 'param') or (isinstance(ix, dict) and ix.get('k') in ('un', 'idx') and 'char' in (ix.get('t') or ''))
+            if isinstance(ix, dict) and ix.get('k') in ('un', 'idx') and 'char' in (ix.get('t') or ''):
+                return True
+            if not (is_var(ix) and ix.get('sc') in ('local', 'param')):
+                return False
+            if 'char' in (ix.get('t') or ''):
+                return True
+            # a local the scan loaded a byte into (`ch = *pos++`); a loop counter over a word list is not text
+            for d in f.local_defs(ix['name']):
+                v = d.ev.get('rhs') if d.ev['k'] == 'store' else d.ev.get('init')
+                for x in walk(v or {}):
+                    if not (isinstance(x, dict) and ((x.get('k') == 'un' and x.get('op') == '*') or x.get('k') == 'idx')):
+                        continue
+                    t_ = x.get('t') or ''
+                    if 'char' in t_ and '*' not in t_:
+                        return True
+                    inner = x.get('e') if x.get('k') == 'un' else x.get('base')
+                    if any(isinstance(y, dict) and y.get('k') == 'var' and (y.get('t') or '').replace('const ', '').strip() in ('char *', 'unsigned char *', 'signed char *') for y in walk(inner or {})):
+                        return True
+            return False
         tabs = [x for x in exprs if x.get('k') == 'idx' and is_var(x.get('base')) and isinstance(x['base'].get('arr'), int) and const_of(x.get('index')) is None and x['base']['name'] != 'char_types' and from_text(x.get('index'))]
         names = {x['base']['name'] for x in tabs}
         if not tabs:
